@@ -253,6 +253,11 @@ func handle(l cout.Log, c net.Conn, h connServer, a string) {
 	v = nil
 }
 func (c *conn) start(l cout.Log, h connServer, x net.Conn, a string) {
+	// KeyCrypt: The Packet that opened this Channel may have been a re-key, in
+	//           which case the Session switched keys after this conn took its
+	//           copy (the reply still used the old one). The client swaps right
+	//           after reading that reply, so the Channel must run on the new key.
+	c.keys = c.host.keyValue()
 	h.clientLock()
 	for i := range c.subs {
 		h.clientSet(i, c.host.sender())
